@@ -375,6 +375,7 @@ func parent(spec *Spec, tier string, seed uint64, vdir, only string, limit int) 
 		floor = 2
 	}
 	tooLittle := ""
+	floorReport := map[string]any{"distinct_nontrivial": map[string]int64{"floor": int64(floor), "observed": int64(len(agg.Distinct))}}
 	if only == "" && limit == 0 {
 		if len(agg.Distinct) < floor {
 			tooLittle = fmt.Sprintf("distinct non-trivial cases %d < floor %d", len(agg.Distinct), floor)
@@ -391,6 +392,7 @@ func parent(spec *Spec, tier string, seed uint64, vdir, only string, limit int) 
 			if s, ok := agg.Sets[k]; ok {
 				got = int64(len(s))
 			}
+			floorReport[k] = map[string]int64{"floor": min, "observed": got}
 			if got < min {
 				tooLittle += fmt.Sprintf(" observed %s=%d < floor %d", k, got, min)
 			}
@@ -418,6 +420,8 @@ func parent(spec *Spec, tier string, seed uint64, vdir, only string, limit int) 
 	if len(agg.InconReasons) > 0 {
 		cov["inconclusive_reasons"] = agg.InconReasons
 	}
+	// what this run had to observe at least (below any of these the exit code is 2) and what it did observe
+	cov["floors"] = floorReport
 	if spec.Exhaustive {
 		cov["exhaustive"] = true
 	}
